@@ -134,3 +134,8 @@ package issuelink
 //@   props C19
 //@   ensures self.IssueURL != "" ==> result == UnimplementedErrorHint + "\n" + sprintf1("See: %s", ifaceOf(self.IssueURL))
 //@   ensures self.IssueURL == "" ==> result == UnimplementedErrorHint + stdstrings.IssueReferral
+
+//@ method (*unimplementedError).SafeFormatError
+//@   props C09
+//@   requires p != nil
+//@   ensures result == nil
